@@ -81,6 +81,8 @@ def run_execution(scenario, prefix: List[str], opts: Dict[str, Any]) -> Executio
         spin_time=opts.get("spin_time", 0.0),
         line_points=opts.get("line_points", False),
         time_horizon=opts.get("time_horizon", 120.0),
+        time_jump_cost=opts.get("time_jump_cost"),
+        time_jump_max=opts.get("time_jump_max", 0.3),
     )
     env = Env(scheduler)
     result: Dict[str, Any] = {}
